@@ -18,8 +18,9 @@ running, right after the k-th per-file call of ``update_entry_for_path`` has ret
 (k = 0: right after the start time has been taken), file j is rewritten (same size /
 other size) with mtime = the instant of the edit (scan start + 0, + 0.5 s, + 2 s); either
 nothing else had changed (the running update then keeps the old TIMESTAMP) or another
-file had (it writes a fresh TIMESTAMP).  Then one more ``update --incremental`` runs 100 s later and, on the same directory and at the
-same instant, a full update: the full update must have nothing left to correct.
+file had (it writes a fresh TIMESTAMP).  Then one more ``update --incremental`` runs
+100 s later and, on the same directory and at the same instant, a full update: the full
+update must have nothing left to correct.
 
 Oracle (three-valued).  MUST: after a round in which every content-modified file has a
 changed size or an mtime strictly later than the previous TIMESTAMP, the reference-parsed
@@ -29,6 +30,10 @@ value at which the scan started; B verifies (harness sanity).  DONT_CARE: same-s
 modification with mtime <= previous TIMESTAMP (premise false); an *added* file whose mtime
 is not later than the TIMESTAMP (is an added file a "modified file"? two readings); an
 in-flight same-size edit whose mtime equals the whole second of the scan start.
+An mtime of T+0.5 s counts as later than TIMESTAMP T (MUST): the TIMESTAMP is the scan start
+rounded *down*, so a file written at T+0.5 may have been written after a scan that began at
+T+0.2 and cannot be told apart from one hashed by a scan that began at T+0.9; re-hashing the
+latter is harmless, skipping the former breaks the second sentence of the statement.
 """
 
 import argparse
@@ -59,8 +64,8 @@ RULE = ('hist: {UTC, XXX-3, XXX5} x {flat, nested layout} x {scan start on the s
         'T0+100*round; a state is a (configuration, history prefix); non-trivial = the round was judged MUST. '
         'inflight: the same configurations x running update {incremental, full} x k in 0..K (K = number of '
         'update_entry_for_path calls that carry the last_mtime keyword, i.e. the per-file calls of the walk) x '
-        'file slot j x {same size, other size} x edit instant {scan start +0, +0.5 s, +2 s} x {no other pending change, another file changed beforehand}, then incremental '
-        '+ full update 100 s later')
+        'file slot j x {same size, other size} x edit instant {scan start +0, +0.5 s, +2 s} x {no other pending '
+        'change, another file changed beforehand}, then incremental + full update 100 s later')
 ASSUMPTIONS = [
     'the clock is owned by replacing the name `datetime` inside gemato.cli with a stand-in module whose '
     'datetime.utcnow()/now() return the harness instant; it never advances on its own (only the in-flight hook '
@@ -637,7 +642,7 @@ def explore_hist(cfg, first, depth_max, stats, scratch):
             n0 = stats.compared
             cont = play_round(run, A, B, ch, rnd, h)
             stats.case(('hist', cfg['tz'], cfg['layout'], cfg['frac'], tuple(h)), nontrivial=stats.compared > n0)
-            if len(stats.samples) < 1 and rnd == 2:
+            if len(stats.samples) < 1 and rnd == 2 and first == 0 and cfg['layout'] == 'nested':
                 stats.sample({'family': 'hist', 'config': cfg, 'history': h})
             for v in run.vio:
                 stats.violation(v['sig'], v['case'], v['message'])
@@ -824,14 +829,22 @@ def shards(tier, seed):
             for layout in LAYOUTS:
                 for first in range(n_first):
                     out.append(('hist', tz, layout, frac, first))
-    # the deep shards first (longest processing time first keeps the workers busy)
-    out.sort(key=lambda s: -depth_for(tier, s[3]))
     for tz in TZS:
         for layout in LAYOUTS:
             for frac in FRACS:
                 for mode in ('incr', 'full'):
                     out.append(('inflight', tz, layout, frac, mode))
-    return out
+
+    def cost(s):          # rough number of gemato runs; longest first keeps the workers busy
+        if s[0] == 'inflight':
+            return 1000
+        return 120 if depth_for(tier, s[3]) == 2 else 4500
+    out.sort(key=lambda s: -cost(s))
+    # one cheap shard whose first node is the smallest history that can show a time-zone dependence goes
+    # first, so that the example kept for a signature tends to be a one-round history
+    w = ('hist', 'west', 'flat', 0, initial_choices().index(('modify_same_size', 0, 'newer')))
+    out.remove(w)
+    return [w] + out
 
 
 def run_shard(spec, tier, seed, scratch):
